@@ -324,3 +324,38 @@ def family_report(ctx, st, props, consts, corr_name, mism, bad, unit_errors, sta
     cov.update(extra or {})
     ctx.coverage.update(cov)
     ctx.assumptions += list(assumptions)
+
+
+# --------------------------------------------------------------------------- C12: the dynamic interpreter (overlay harness)
+OTF_PKG = "internal/pure/onthefly"
+
+
+def build_otf(scratch):
+    return vlib.build_overlay_test(OTF_PKG, {"verif_otf_test.go": VERIF / "overlay" / OTF_PKG / "verif_otf_test.go"}, scratch, name="otf")
+
+
+def run_otf(binary, scratch, load_line, lines, timeout=900, watchdog_ms=4000, max_restarts=25):
+    """run ops through the interpreter harness; a process death costs one `crash ...` result and a restart"""
+    scratch = Path(scratch)
+    scratch.mkdir(exist_ok=True)
+    results = []
+    restarts = 0
+    first = None
+    while len(results) < len(lines):
+        pos = len(results)
+        rc, res, log = vlib.run_overlay_test(binary, "TestVerifOtf", [load_line] + lines[pos:], scratch, timeout=timeout,
+                                             extra_env={"VERIF_OTF_WATCHDOG_MS": str(watchdog_ms)})
+        if not res or not res[0].startswith("ok"):
+            return None, f"interpreter kernel did not load: {res[:1]} {log[-400:]}"
+        first = first or res[0]
+        got = res[1:][:len(lines) - pos]
+        results += got
+        if len(results) >= len(lines):
+            break
+        if not (got and got[-1].startswith("crash")):
+            reason = next((l for l in log.splitlines() if l.startswith(("fatal error", "runtime:", "panic"))), f"exit {rc}")
+            results.append("crash " + reason[:160])
+        restarts += 1
+        if restarts > max_restarts:
+            results += ["crash too-many-restarts"] * (len(lines) - len(results))
+    return results, first
